@@ -3,6 +3,7 @@ from hypothesis import strategies as st
 
 from vf.core.runner import Violation
 from vf.model import rulelang as RL
+from vf.model.rnd import urandoms
 from vf.model.devsim import SimError, apply, expect, same_state
 
 PID = "C01"
@@ -29,7 +30,7 @@ FLOORS = {"same-key-change": 0.2, "ordered-move": 0.04, "removal+addition": 0.5,
 
 @st.composite
 def _cases(draw):
-    rnd = draw(st.randoms(use_true_random=False, note_method_calls=False))
+    rnd = draw(urandoms())
     vendor = rnd.choice(VENDORS)
     rules = RL.gen_rules(rnd)
     ctx = RL.Ctx(rules)
